@@ -369,3 +369,14 @@ def carries(t, obj) -> bool:
         if t[0] == 'phi':
             return carries(t[3], obj)
     return False
+
+
+def all_closures(paths):
+    """Closures created on any path of a function, one per closure node."""
+    seen, out = set(), []
+    for p in paths:
+        for c in p.closures:
+            if id(c.node) not in seen:
+                seen.add(id(c.node))
+                out.append(c)
+    return out
